@@ -82,6 +82,10 @@ def main(argv):
             from . import selftest
 
             return selftest.determinism(args.rest, args.n)
+        if args.what == "selftest-benign":
+            from . import selftest
+
+            return selftest.benign(args.rest)
         if args.what == "selftest-seeded":
             from . import selftest
 
